@@ -76,3 +76,4 @@ revert 9bea1b7 C04
 revert 25cefdc C17 C13
 revert e3cce72 C15
 revert 1ff4174 C09
+revert e1ffc85 C09
